@@ -544,7 +544,7 @@ def run_path(case, drv):
     res.nontrivial = ('Fiber' in kinds or 'RamanFiber' in kinds) and ('Edfa' in kinds or 'Multiband_amplifier' in kinds)
     res.stats.update({f'{case["kind"]}_cases': 1, 'path_elements': len(rec.calls), 'path_channels': nchan,
                       'path_addNli_calls': nli_guard, 'op_calls_monitored': len(rec.op_events),
-                      f'net_{case["net"] if isinstance(case["net"], str) else "generated"}': 1,
+                      f'net_{case["net"] if isinstance(case["net"], str) else ("mbchain" if "mbhops" in case["net"] else "generated")}': 1,
                       'sim_' + str(case['sim']): 1})
     for k in set(kinds):
         res.stats[f'elem_{k}'] += kinds.count(k)
@@ -653,7 +653,7 @@ def run_automode(case, drv):
     res.stats.update({'automode_cases': 1, 'automode_modes_explored': explored,
                       'automode_selected_' + ('none' if mode is None else 'some'): 1,
                       f'automode_blocking_{getattr(req, "blocking_reason", None)}': 1,
-                      f'net_{case["net"] if isinstance(case["net"], str) else "generated"}': 1})
+                      f'net_{case["net"] if isinstance(case["net"], str) else ("mbchain" if "mbhops" in case["net"] else "generated")}': 1})
     return res
 
 
@@ -723,7 +723,7 @@ def shrink_candidates(case):
             c = copy.deepcopy(case)
             c['nch'] = max(1, case['nch'] // 2)
             yield c
-        if not isinstance(case['net'], str):
+        if not isinstance(case['net'], str) and 'desc' in case['net']:
             d = case['net']['desc']
             for h in range(len(d['hops'])):
                 if len(d['hops'][h]) > 1:
